@@ -159,7 +159,8 @@ def c10(tier, seed, wd, replay=None):
                                 r = w3.apply(c)
                                 if w3.extra_links:
                                     continue        # the call left the object pool the judge is sized for
-                                cont_recs.append({"id": len(cont_recs) + 1, "pre": pre, "c": c, "res": r, "post": w3.project(), "consts": consts})
+                                cont_recs.append({"id": len(cont_recs) + 1, "pre": pre, "c": c, "res": r, "post": w3.project(), "consts": consts,
+                                                  "meta": {k: x for k, x in meta[("iso", rid)].items() if k != "consts"}})
                 if si < (2 if tier == "quick" else 10):
                     for loader, fc in (("pickle", True), ("dill", False)):
                         fresh_jobs.append((name, consts, path, variant, caching, protos[(si + variant) % len(protos)], loader, fc,
@@ -196,7 +197,8 @@ def c10(tier, seed, wd, replay=None):
             if "fail" in v:
                 r = cpart[v["id"] - 1]
                 run.violation(f"continue-on-copy:{r['c']['op']}|Follow", f"{r['c']['op']}{r['c']['a']} on the un-pickled copy deviates from the specification",
-                              {"kind": "pickle-continue", "call": r["c"], "pre": r["pre"], "post": r["post"]})
+                              dict(kind="pickle-continue", call=r["c"], pre=r["pre"], post=r["post"], res=r["res"],
+                                   consts={k: (sorted(x) if isinstance(x, set) else x) for k, x in consts.items()}, **r["meta"]))
         run.count_class(f"continue-on-copy:{name}", len(cpart))
     # fresh interpreter
     t0 = time.time()
@@ -279,6 +281,14 @@ def c10(tier, seed, wd, replay=None):
         if err or not ok:
             run.violation(f"after-failed-dumps|{err or 'CopyDiffers'}", f"dumps() of a 4-cycle right after a dumps() that raised (protocol {proto}): {err or 'copy differs'}",
                           {"kind": "pickle-after-failure", "protocol": proto})
+    # user subclasses that keep data in __slots__
+    for proto in (2, 3, 4, 5):
+        loader = ("pickle", "dill")[proto % 2]
+        err, ok = PX.slotted_case(proto, loader)
+        run.count_class(f"slotted-subclasses:proto{proto},{loader}")
+        if err or not ok:
+            run.violation(f"slotted-subclasses|{err or 'CopyDiffers'}", f"round trip of Vertex / Universe subclasses with __slots__ (protocol {proto}, {loader}): {err or 'slot values lost'}",
+                          {"kind": "pickle-slotted", "protocol": proto, "loader": loader})
     run.traces += len(tree_recs) + len(iso_recs) + len(cont_recs) + len(fresh_jobs)
     run.evaluations += len(tree_recs) + len(iso_recs) + len(cont_recs) + len(fresh_jobs) + len(sizes)
     good_trees = [t for t in tree_recs if t["tree"]]
@@ -308,6 +318,21 @@ def replay_file(path, wd):
         bad = bool(PX.main_super_case(wd))
     elif kind == "pickle-recursive-closure":
         bad = bool(PX.recursive_closure_case())
+    elif kind == "pickle-continue":
+        w = build(consts, rp["path"], rp["caching"])
+        PX.decorate(w, rp["variant"])
+        if rp["caching"]:
+            P.run(w, w.project(), {"kind": "C05", "full": False, "nofilter": True})
+        _, w2, _ = PX.roundtrip_same_process(w, rp["protocol"], rp["loader"])
+        w3 = PX.world_from_pool(__import__("pickle").loads(__import__("pickle").dumps(PX.pool_of(w2))))
+        pre = w3.project()
+        r = w3.apply(rp["call"])
+        rec = {"id": 1, "pre": pre, "c": rp["call"], "res": r, "post": w3.project()}
+        print(json.dumps(rec)[:1500])
+        bad = any("fail" in v for v in ST.judge("C03", consts, [rec], wd, "replay", shards=1))
+    elif kind == "pickle-slotted":
+        err, ok = PX.slotted_case(rp["protocol"], rp["loader"])
+        bad = bool(err or not ok)
     elif kind == "pickle-after-failure":
         _, err, ok = PX.after_failure_case(rp["protocol"])
         bad = bool(err or not ok)
